@@ -608,7 +608,7 @@ CORE_HANDLER_FILES = ["asmallg.c", "asmif.c", "asmmac.c", "asmstructs.c", "as.c"
 CORE_STACKS = ["FirstIfSave", "FirstSaveState", "SectionStack", "StructStack", "pInnermostNamedStruct", "FirstOutputTag", "FirstInputTag",
                "pPhaseStacks[*]", "MomLocHandle", "LocHandleCnt", "SectSymbolCounter", "ErrorCount", "WarnCount", "Repass", "ENDOccured",
                "ActPC", "PCsUsed[*]", "Phases[*]", "RelaxedMode", "CompMode", "DoPadding", "SupAllowed", "FPUAvail", "Maximum", "DoBranchExt",
-               "StartAdrPresent", "EnumCurrentValue", "EnumIncrement", "EnumSegment", "IncDepth", "NestMax", "TransTables", "CurrTransTable"]
+               "StartAdrPresent", "EnumCurrentValue", "EnumIncrement", "EnumSegment", "IncDepth", "NestMax", "TransTables", "CurrTransTable", "JmpErrors"]
 
 
 def _core_file_job(job):
@@ -661,7 +661,22 @@ def _core_file_job(job):
     for r in ("AssembleFile", "AssembleFile_ExitPass"):
         if r in funcs:
             calls[r] = sorted(eff[r][1])
-    return dict(file=f, perpass=sorted(perpass), assigned={k: sorted(v)[:3] for k, v in asg.items()}, calls=calls)
+    # file handles AssembleFile closes before the next source - in its own body or in a function of the same file it calls, as
+    # CloseIfOpen(&X) or by assigning X: the per-source error log (-E without a name) must be among them
+    closes = []
+    if "AssembleFile" in funcs:
+        seen, todo = set(), ["AssembleFile"]
+        while todo:
+            x = todo.pop()
+            if x in seen:
+                continue
+            seen.add(x)
+            todo += [y for y in eff[x][1] if y in funcs]
+            for n in _walk(funcs[x]):
+                if n.get("kind") == "CallExpr" and _callee(n) == "CloseIfOpen" and len(n.get("inner", [])) >= 2:
+                    closes.append(address_key(n["inner"][1]) or "?")
+        closes += [k for k in closure(["AssembleFile"]) if k in ("ErrorFile",)]
+    return dict(file=f, perpass=sorted(perpass), assigned={k: sorted(v)[:3] for k, v in asg.items()}, calls=calls, closes=sorted(set(closes)))
 
 
 def core_inventory(bdir):
@@ -674,7 +689,7 @@ def core_inventory(bdir):
     for f in files:
         with open(os.path.join(common.REPO, f), "rb") as fh:
             key = hashlib.sha256(fh.read()).hexdigest()[:16]
-        cp = os.path.join(cdir, "core-%s-%s-%s.json" % (f, key, hh))
+        cp = os.path.join(cdir, "core-%s-%s-%s-v3.json" % (f, key, hh))
         if os.path.exists(cp):
             try:
                 res[f] = json.load(open(cp))
@@ -718,7 +733,8 @@ def core_inventory(bdir):
         fileCallsDefInit=all(x in calls.get("AssembleFile", []) for x in ("AsmDefInit", "AsmParsInit", "AsmIFInit", "InitFileList")),
         fileCallsClearUp="ClearUp" in calls.get("AssembleFile", []),
         exitPassUnsetsCPU="UnsetCPU" in calls.get("AssembleFile_ExitPass", []),
-        exitPassClearsStacks="ClearStacks" in calls.get("AssembleFile_ExitPass", []))
+        exitPassClearsStacks="ClearStacks" in calls.get("AssembleFile_ExitPass", []),
+        fileClosesErrorLog="ErrorFile" in res["as.c"].get("closes", []))
     return rows, stacks, facts
 
 
@@ -825,5 +841,6 @@ def gen_genstate(bdir, write_if_changed, hdr):
     L.append("def fileCallsClearUp : Bool := %s" % _lb(facts["fileCallsClearUp"]))
     L.append("def exitPassUnsetsCPU : Bool := %s" % _lb(facts["exitPassUnsetsCPU"]))
     L.append("def exitPassClearsStacks : Bool := %s" % _lb(facts["exitPassClearsStacks"]))
+    L.append("def fileClosesErrorLog : Bool := %s  -- AssembleFile (or a function of as.c it calls) closes ErrorFile - the per-source error log of -E without a name" % _lb(facts["fileClosesErrorLog"]))
     L.append("\nend AslModel.Generated\n")
     return write_if_changed("GenState.lean", "\n".join(L))
